@@ -317,7 +317,6 @@ func runC09Race(c *Ctx, cfg c09Race) (sig, msg string) {
 	return "", ""
 }
 
-
 // scenario C: SetReadOnly racing Close.  The yield point after SetReadOnly's closed check lets Close run in
 // the window; whether the write-lock token is then left behind depends on two `select` coin flips, so the
 // scenario is repeated a few times.
@@ -355,7 +354,7 @@ func runC09SetReadOnlyClose(attempts int) (sig, msg string, fired int) {
 
 func init() {
 	Registry["C09"] = func(c *Ctx) {
-		c.Res.Rule = "A: single-client scripts (put, sync put, large batch, explicit transaction open/put/commit/discard, CompactRange, get, iterator) with one injected failure window (kind × file type × first occurrence × length × with/without effect) on journal/manifest/table create, write, sync, remove; after every return the lock state (verif export) must be free or owned by the open transaction; after healing, Put and Close must return; B: 4–24 clients mixing Put, large Write, transactions, CompactRange and readers racing one Close, no faults; every call under a watchdog; non-trivial = the fault window was reached or Close raced live clients; distinct by configuration"
+		c.Res.Rule = "A: single-client scripts (put, sync put, large batch, explicit transaction open/put/commit/discard, CompactRange, get, iterator) with one injected failure window (kind × file type × first occurrence × length × with/without effect) on journal/manifest/table create, write, sync, remove; after every return the lock state (verif export) must be free or owned by the open transaction; after healing, Put and Close must return; D: with the level-0 count at WriteL0PauseTrigger and every table compaction failing, OpenTransaction / a large batch return the error and the calls issued after the failures stop must return; B: 4–24 clients mixing Put, large Write, transactions, CompactRange and readers racing one Close, no faults; every call under a watchdog; non-trivial = the fault window was reached or Close raced live clients; distinct by configuration"
 		kinds := []stor.Kind{stor.OpSync, stor.OpWrite, stor.OpCreate, stor.OpRemove}
 		ftypes := []storage.FileType{storage.TypeManifest, storage.TypeJournal, storage.TypeTable}
 		scripts := [][]string{
@@ -374,6 +373,15 @@ func init() {
 			c.Res.Count("race", "setreadonly-close-clean")
 		}
 		c.Res.Eval("setreadonly-close", true)
+		// scenario D: lock competitors waiting for a failing compaction at the pause trigger
+		for i := 0; i < c.Scale(6, 60) && !c.Hung; i++ {
+			cfg := c09PauseCfg{Seed: c.R.Fork().U64(), Pause: 2 + i%3, Big: i%2 == 1}
+			if sig, msg := runC09Pause(c, cfg); sig != "" {
+				c.Res.Violate(sig, msg, cfg)
+				c.Hung = true
+			}
+			c.Res.Eval(fmt.Sprintf("pause/%+v", cfg), true)
+		}
 		n := c.Scale(70, 1500)
 		for i := 0; i < n && c.TimeLeft() && !c.Hung; i++ {
 			r := c.R.Fork()
